@@ -69,6 +69,8 @@ NamedTD(id) ==
     [] id = "UProc" -> TStruct(<<Fld("N", <<78>>, TScalar("int64")), Fld("First", <<70, 105, 114, 115, 116>>, TScalar("int64"))>>)
     \* a processing unfolder whose cell holds the type again (what it yields is not modelled: targets of C14, Unspec in C13)
     [] id = "UNest" -> TStruct(<<Fld("N", <<78>>, TScalar("int64")), Fld("Kids", <<75, 105, 100, 115>>, TSlice(TNamed("UNest")))>>)
+    \* a struct that has the shape of a pointer (one pointer field), with a registered folder: folds as "W<*P>" / "W-"
+    [] id = "RegW" -> TStruct(<<Fld("P", <<80>>, TPtr(TScalar("int")))>>)
     [] OTHER -> TStruct(<<Fld("A", <<65>>, TScalar("int"))>>)        \* ZeroT ZeroP FoldT FoldObj RegT RegObj
 Resolve(T) == IF T.k = "named" /\ T.id \notin RefuseIds THEN NamedTD(T.id) ELSE T
 
@@ -89,7 +91,7 @@ VObj(members, unord) == [k |-> "obj", v |-> members, unord |-> unord]
 IsLeafV(x) == x.k \notin {"arr", "obj"}
 DigitStr(c) == <<70, 48 + c[9]>>          \* FoldT folds as "F<A>" (A in 0..9)
 RegStr(c) == <<82, 48 + c[9]>>            \* RegT: registered folder, folds as "R<A>"
-StrFolderIds == {"FoldT", "RegT", "FoldSl", "FoldMp"}         \* custom folders emitting a string
+StrFolderIds == {"FoldT", "RegT", "RegW", "FoldSl", "FoldMp"}         \* custom folders emitting a string
 ObjFolderIds == {"FoldObj", "RegObj"}     \* custom folders emitting an object {fa|ra: A}
 ObjFolderKey(id) == IF id = "FoldObj" THEN <<102, 97>> ELSE <<114, 97>>
 
@@ -161,7 +163,7 @@ HasDupNames(T) == LET n == MemberNames(T) IN \E a, b \in 1..Len(n) : a # b /\ n[
 RECURSIVE HasCustomFolder(_, _), UnfoldMayRefuse(_, _)
 HasCustomFolder(T, depth) ==
   IF depth = 0 THEN FALSE
-  ELSE CASE T.k = "named" -> T.id \in {"FoldT", "FoldObj", "RegT", "RegObj", "FoldSl", "FoldMp"}
+  ELSE CASE T.k = "named" -> T.id \in {"FoldT", "FoldObj", "RegT", "RegObj", "RegW", "FoldSl", "FoldMp"}
          [] T.k \in {"ptr", "slice", "array", "map"} -> HasCustomFolder(T.e[1], depth - 1)
          [] T.k = "struct" -> \E j \in 1..Len(T.f) : HasCustomFolder(T.f[j].t, depth - 1)
          [] OTHER -> FALSE
@@ -200,6 +202,7 @@ FoldSem(T0, v, look) ==
   LET T == Resolve(T0) IN
   CASE T0.k = "named" /\ T0.id = "FoldT" -> EvStr(DigitStr(v.f[1].v))
     [] T0.k = "named" /\ T0.id = "RegT" -> EvStr(RegStr(v.f[1].v))
+    [] T0.k = "named" /\ T0.id = "RegW" -> EvStr(IF v.f[1].nil THEN <<87, 45>> ELSE <<87, 48 + v.f[1].e[1].v[9]>>)
     [] T0.k = "named" /\ T0.id = "FoldSl" -> EvStr(<<76, 48 + Len(v.e)>>)
     [] T0.k = "named" /\ T0.id = "FoldMp" -> EvStr(<<77, 48 + Len(v.m)>>)
     [] T0.k = "named" /\ T0.id \in ObjFolderIds -> VObj(<<[key |-> ObjFolderKey(T0.id), val |-> v.f[1]]>>, FALSE)
@@ -374,7 +377,7 @@ RECURSIVE Exp(_, _, _), ExpFields(_, _, _)
 ZeroLeafOld(old) == old
 Exp(T0, old, sv) ==
   LET T == Resolve(T0) IN
-  CASE T0.k = "named" /\ T0.id \in {"FoldT", "FoldObj", "ZeroT", "ZeroP", "RegT", "RegObj", "FoldSl", "FoldMp"} -> Unspec
+  CASE T0.k = "named" /\ T0.id \in {"FoldT", "FoldObj", "ZeroT", "ZeroP", "RegT", "RegObj", "RegW", "FoldSl", "FoldMp"} -> Unspec
     [] T0.k = "named" /\ T0.id \in UserUnfoldIds -> ExpUser(T0.id, sv)
     [] T.k = "iface" -> sv                                   \* generic data: the stream's value itself
     [] T.k = "ptr" -> IF sv.k = "nil" THEN EvNil
